@@ -15,6 +15,7 @@ EXPLANATION = (
     "actually finished when close() returns (the 10 ms sleeps are timing), callback slowness."
     " [CLOSE-DOES close::link-shut-before-awaiting-after-a-cancel] close() may run inside the receive callback, i.e. in the task it cancels: on every path from its entry to an await that a .cancel() can precede, self.writer.close() has been passed (forward must-analysis; paths on which there is no writer excepted). 'CLOSED at entry' of a background coroutine is decided path-sensitively: with the state CLOSED (tests on the state and on local flags computed from it followed accordingly) no await, loop or raise is reachable."
     ' Fifth round: a path through a fault handler is a witness only when no undecided test on it reads something of the client that may stand for the connection state; start / get / put sites that moved into helpers, an attempt or a callback inside a `with` over an unknown context manager, and reads made through helpers are undecided; a helper coroutine runs under the lock when every call (or hand-over as a value) of it does.'
+    " Seventh round: [CLOSE-DOES] close::on-every-path -- in the graph of close(), in the world 'writer present, both background tasks running', every path from entry to exit passes the writer's close and both cancellations; tests of the connection state are taken both ways (close() must work from every state), a test of something else of the client gives no verdict."
 )
 ASSUMPTIONS = ["CPython ast parser", "asyncio: tasks interleave only at a suspending await; `await coro()` runs coro synchronously to its first suspension",
                "every `await` is treated as a possible suspension", "cfg.py exception-edge model (statements containing call/await/subscript/raise/assert may raise)"]
